@@ -1371,6 +1371,13 @@ func (h *wwHist) opMelt(wi, mi int, amount uint64, answer string) bool {
 	m.env.LN.script = nil
 	m.env.LN.mu.Unlock()
 	h.count("melt", fmt.Sprintf("lightning answer %s, fee reserve %v: %v", answer, m.env.Opts.FeePct, err == nil))
+	if answer == "pending" && h.rng.Chance(40) {
+		// the caller retries while the payment is still in flight: Melt checks the quote state first
+		m.env.LN.mu.Lock()
+		m.env.LN.script = []string{"pending"}
+		m.env.LN.mu.Unlock()
+		h.call("melt", w, func() error { _, err := w.w.Melt(quote); return err })
+	}
 	if answer == "pending" {
 		// later: the payment resolves; the wallet asks for the quote state
 		m.env.LN.mu.Lock()
@@ -1452,6 +1459,27 @@ func (h *wwHist) opRestore(wi int) bool {
 	h.tab.mu.Unlock()
 	// mints beyond the default have to be added again by LoadWallet's caller: Restore saved their keysets
 	return err == nil
+}
+
+// opReopen: the wallet is closed and loaded again: its proofs now come from the bbolt file (which keeps the DLEQs)
+func (h *wwHist) opReopen(wi int) bool {
+	w := h.wallets[wi]
+	w.w.Shutdown()
+	if err := h.loadWallet(w); err != nil {
+		h.notes = append(h.notes, "reopen: "+err.Error())
+		return false
+	}
+	n, withR := 0, 0
+	for _, p := range w.w.VerifDB().GetProofs() {
+		n++
+		if p.DLEQ != nil && p.DLEQ.R != "" {
+			withR++
+		}
+	}
+	h.count("ops", "reopen:ok")
+	h.count("reopened-wallet-store", fmt.Sprintf("proofs read back from bbolt with dleq.r: %v", withR > 0 || n == 0))
+	h.oplog = append(h.oplog, fmt.Sprintf("%s reopen -> ok (%d proofs, %d with dleq.r)", w.name, n, withR))
+	return true
 }
 
 func (h *wwHist) opRotate(mi int) bool {
@@ -1579,8 +1607,10 @@ func (h *wwHist) random(nops int) {
 			h.opReclaim(wi)
 		case choice < 93:
 			h.opRemoveSpent(wi)
-		case choice < 97:
+		case choice < 96:
 			h.opRestore(wi)
+		case choice < 98:
+			h.opReopen(wi)
 		default:
 			h.opRotate(h.rng.Intn(nm))
 		}
